@@ -189,7 +189,7 @@ fn jac_close<T: Sc>(a: &[u64], b: &[u64], rows: usize) -> (bool, bool) {
         }
         for i in 0..rows {
             let (x, y) = (av[c * rows + i].f(), bv[c * rows + i].f());
-            if x.is_nan() && y.is_nan() {
+            if (x.is_nan() && y.is_nan()) || x == y {
                 continue;
             }
             if !((x - y).abs() <= 64.0 * T::u() * scale + 4.0 * T::tiny()) {
